@@ -6,6 +6,8 @@ from . import specconst
 def main(pid, tier, repo=None):
     ctx = Ctx(pid, tier, configs=("workspace",), repo=repo)
     specconst.run(ctx, pid, floor=20)
+    from . import enummap
+    enummap.run(ctx, pid)
     ctx.not_decided("numerical tolerance statements over real-valued functions: that the synthesised profile parses back to an equivalent "
                     "encoding for custom chromaticities and arbitrary gamma, that each transfer function's two directions compose to the "
                     "identity and are monotone, no-op detection of equivalent encodings")
